@@ -18,9 +18,9 @@ def run(ctx):
     ctx.assume(*_pipe.ASSUME)
     ctx.not_claimed(_pipe.OUTSIDE)
     C = []
-    ks = [8, 33, 9, 25, 19] if q else list(range(len(P.HOLES)))
+    ks = [8, 33, 9, 25, 19] if q else list(range(0, len(P.HOLES), 2)) + [31, 33, 35, 37]
     if not q:
-        C += PC.text_holes(ctx, own, ks, vis=(4,), timeout=2400)
+        C += PC.text_holes(ctx, own, ks, vis=(4,), timeout=900)
     C += PC.spell_holes(ctx, own, range(0, len(P.SPELL), 3) if q else range(len(P.SPELL)))
     C += PC.label_holes(ctx, own, [P.skel('x = 1  # done'), P.skel('foo bar'), P.skel('((((')] + _pipe.pick(ctx, 1, len(P.SKELS), 7) if q else range(len(P.SKELS)), vis=(4,) if q else (0, 4, 8))
     xh.run_conditions(ctx, C)
